@@ -3,8 +3,12 @@ from aiokafka.errors import CorruptRecordException
 
 # VarInt implementation
 
-cdef inline int decode_varint64(
-        char* buf, Py_ssize_t* read_pos, int64_t* out_value) except -1:
+cdef inline int _decode_varint64_checked(
+        char* buf, Py_ssize_t buf_len, Py_ssize_t* read_pos,
+        int64_t* out_value):
+    """ Returns 0 on success, 1 if the varint starts or continues outside of
+    the `buf_len` bytes of `buf`, 2 if it does not end within 10 bytes.
+    """
     cdef:
         int shift = 0
         char byte
@@ -12,6 +16,8 @@ cdef inline int decode_varint64(
         uint64_t value = 0
 
     while True:
+        if pos < 0 or pos >= buf_len:
+            return 1
         byte = buf[pos]
         pos += 1
         if byte & 0x80 != 0:
@@ -21,10 +27,23 @@ cdef inline int decode_varint64(
             value |= <uint64_t>byte << shift
             break
         if shift > 63:
-            raise CorruptRecordException("Out of double range")
+            return 2
     # Normalize sign
     out_value[0] = <int64_t>(value >> 1) ^ -<int64_t>(value & 1)
     read_pos[0] = pos
+    return 0
+
+
+cdef inline int decode_varint64(
+        char* buf, Py_ssize_t buf_len, Py_ssize_t* read_pos,
+        int64_t* out_value) except -1:
+    cdef int status
+    status = _decode_varint64_checked(buf, buf_len, read_pos, out_value)
+    if status == 1:
+        raise CorruptRecordException(
+            "Can't read varint at pos {}: end of buffer".format(read_pos[0]))
+    elif status == 2:
+        raise CorruptRecordException("Out of double range")
     return 0
 
 
@@ -83,16 +102,20 @@ def decode_varint_cython(buffer, pos=0):
         Py_buffer buf
         Py_ssize_t read_pos
         int64_t out_value = 0
+        int status
 
     read_pos = pos
 
     PyObject_GetBuffer(buffer, &buf, PyBUF_SIMPLE)
     try:
-        decode_varint64(<char*>buf.buf, &read_pos, &out_value)
-    except CorruptRecordException:
-        raise ValueError("Out of double range")
+        status = _decode_varint64_checked(
+            <char*>buf.buf, buf.len, &read_pos, &out_value)
     finally:
         PyBuffer_Release(&buf)
+    if status == 1:
+        raise IndexError("varint index out of range")
+    elif status == 2:
+        raise ValueError("Out of double range")
     return out_value, read_pos
 
 
